@@ -140,12 +140,18 @@ def downloadAdd (agentsDir : List Bytes) (fs : Fs) (a : LootAgent) (fileId : Nat
       | (fs2, false) => (fs2, a, false)
       | (fs2, true) => (fs2, { a with downloads := a.downloads ++ [⟨fileId, local_, 0⟩] }, true)
 
+/-- the first entry with this file id moves its offset forward -/
+def advanceFirst (fileId n : Nat) : List Download → List Download
+  | [] => []
+  | x :: xs => if x.fileId == fileId then { x with offset := x.offset + n } :: xs else x :: advanceFirst fileId n xs
+
 def downloadWrite (fs : Fs) (a : LootAgent) (fileId : Nat) (data : Bytes) : Fs × LootAgent × Bool :=
   match a.downloads.find? (·.fileId == fileId) with
   | none => (fs, a, false)
   | some d =>
     let fs' := fs.writeAt d.path d.offset data
-    let ds := a.downloads.map fun x => if x == d then { x with offset := x.offset + data.length } else x
+    -- only the handle that was found advances (two entries can be equal in every field: the same id opened twice)
+    let ds := advanceFirst fileId data.length a.downloads
     (fs', { a with downloads := ds }, true)
 
 def downloadClose (a : LootAgent) (fileId : Nat) : LootAgent :=
